@@ -201,7 +201,7 @@ func checkCrud(c crudCase) (rule, sig, msg string) {
 	if err != nil {
 		return "harness", "vault", err.Error()
 	}
-	defer v.Close(ctx)
+	defer dropVault(ctx, v)
 	plans := make([]*workflow.Plan, 3)
 	refs := make([]*workflow.Plan, 3)
 	for i, sh := range crudShapes {
@@ -349,7 +349,7 @@ func enumC14(env *EnumEnv, it *WorkItem) *EnumResult {
 	// (iii) all sequences over {Create, Delete, Read} x 3 plans, shortest first (a sequence ending in a Read is covered
 	// by its extensions except at the last length)
 	for L := 1; L <= depth; L++ {
-		for _, f := range vaultFactories() {
+		for _, f := range append(vaultFactories(), sqliteFileFactory) {
 			phase = fmt.Sprintf("%s: create/delete/read sequences of length %d", f.name, L)
 			var rec func(prefix []int)
 			rec = func(prefix []int) {
@@ -388,7 +388,7 @@ func init() {
 		Level: "fault_enumeration",
 		Rule: "(i) a request that cannot be serialised is placed at EVERY action position (check and sequence actions) of every grammar shape: Create must fail, leave the row counts of all five tables unchanged (sqlite), the plan unreadable, an unrelated plan untouched, and the repaired plan with the SAME ids must then be creatable and read back equal (API-level orphan detector); " +
 			"(ii) process kill at every write-class system call of a real Submit on a file-backed store (strace fault injection, see the evidence notes); (iii) ALL sequences up to depth 4 (6) over {Create, Create again with an altered copy, Delete, Read} x 3 plans of different shapes against a reference set of live plans: duplicate create fails and changes nothing, " +
-			"delete removes exactly that plan, per-table row counts equal the objects of the live plans; both vaults where the CosmosDB fake is available; distinct_nontrivial = fault positions plus operation sequences longer than one",
+			"delete removes exactly that plan, per-table row counts equal the objects of the live plans; both vaults where the CosmosDB fake is available, and sqlite once more on a FILE (WAL, the connection pool the store uses for files); distinct_nontrivial = fault positions plus operation sequences longer than one",
 		Assumptions: []string{"process death, not power loss: no torn pages", "CosmosDB over the package's fake only (single client calls are not cut there)"},
 		Items:       func(tier string) []WorkItem { return append(shardItems("C14", 16), killItems(tier)...) },
 		Enum:        enumC14dispatch,
